@@ -47,7 +47,7 @@ func rolesOfView(v View) rolesModel {
 
 func rolesUniverse(tier string) []Account {
 	if tier == "thorough" {
-		return Accts[0:4]
+		return Accts[0:5]
 	}
 	return Accts[0:3]
 }
@@ -200,7 +200,7 @@ func init() {
 	register(&Check{
 		ID:    "C10",
 		Level: "model_checking",
-		Rule: "phase 1: BFS over the real role-update/accept handlers enumerates every assignment of the 4 roles + pending slot over U (|U|=3 quick, 4 thorough); " +
+		Rule: "phase 1: BFS over the real role-update/accept handlers enumerates every assignment of the 4 roles + pending slot over U (|U|=3 quick, 5 thorough); " +
 			"phase 2: in every such state each of the 18 privileged transaction types (role updates with every account of U and an outsider as the new holder) is submitted by every account of U and by an outsider; " +
 			"distinct_nontrivial counts distinct (role state, transaction type, submitter) triples whose submitter holds some role or is the previous holder",
 		Assumptions: []string{"submitter strings are canonical bech32 (what a signer field can contain)", "parameters of the probes are valid in the fixed base configuration, so an authorised submission must succeed"},
